@@ -72,6 +72,12 @@ def gen(chk, tier):
         d = rscalar(rng)
         g.one("nonce_edge_skip", "sm2.sign", kind="hashed", priv=b32(d), e=rb(rng, 32),
               script=sm2gen.script_of([k, rscalar(rng), rscalar(rng)]))
+    # (1e) very long runs of rejected candidates (a retry limit is not part of the standard's signer): n copies of one
+    # out-of-range candidate (spec side: the run lemma of T_SM2), then a valid nonce
+    for n_, cand in ((5000, T256_ - 1), (70000, N), (70000, 0), (300000, T256_ - 1)) if not q else ((5000, T256_ - 1), (70000, N), (70000, 0)):
+        d = rscalar(rng)
+        g.one("long_rejected_run", "sm2.sign", kind="hashed", priv=b32(d), e=rb(rng, 32), run=dict(d=b32(cand), n=n_),
+              script=sm2gen.script_of([rscalar(rng), rscalar(rng)]))
     # (1c) x1 injected through the verification hook: corners of r = (e + x1) mod n that no nonce
     # reaches (e + x1 >= 2n needs x1 in the top 2^-32 sliver of the field), and x1 in the gap [n, p)
     from ..sm2gen import P
